@@ -3,6 +3,7 @@ package bridge
 import (
 	"encoding/json"
 	"fmt"
+	"math"
 	"math/big"
 	"strings"
 
@@ -12,6 +13,7 @@ import (
 
 	"github.com/teleport-network/teleport/syscontracts"
 	packetcontract "github.com/teleport-network/teleport/syscontracts/xibc_packet"
+	xibctmtypes "github.com/teleport-network/teleport/x/xibc/clients/light-clients/tendermint/types"
 	tsstypes "github.com/teleport-network/teleport/x/xibc/clients/tss-client/types"
 	packettypes "github.com/teleport-network/teleport/x/xibc/core/packet/types"
 
@@ -257,7 +259,12 @@ func (m *Machine) ActSend(t *rapid.T) {
 			callback = w.Moody // reverts until ActFundMoody ran on the sending chain
 		}
 	}
-	out := w.Send(SendSpec{Src: src, DstName: w.Chains[dst].ChainID, User: user, Token: tok, Amount: amt, Fee: fee, Receiver: recv, Call: call, AgentFee: agentFee, Callback: callback}, m.OnSend != nil)
+	// fee option: a number the packet carries end to end (mostly 0; also small values and the limits of uint64)
+	var feeOption uint64
+	if rapid.IntRange(0, 3).Draw(t, "withFeeOption") == 0 {
+		feeOption = rapid.SampledFrom([]uint64{1, 2, 7, 1 << 63, math.MaxUint64}).Draw(t, "feeOption")
+	}
+	out := w.Send(SendSpec{Src: src, DstName: w.Chains[dst].ChainID, User: user, Token: tok, Amount: amt, Fee: fee, Receiver: recv, Call: call, AgentFee: agentFee, Callback: callback, FeeOption: feeOption}, m.OnSend != nil)
 	m.Log("send", fmt.Sprintf("%d>%d %s amt=%s fee=%s call=%s", src, dst, w.TokName(src, tok), amt, fee, call), fmt.Sprintf("ok=%v", out.OK))
 	if out.OK {
 		m.R.Label("send_ok")
@@ -412,6 +419,61 @@ func (m *Machine) ActAck(t *rapid.T) {
 	}
 }
 
+// packetState dumps chain ci's xibc store without the client store of `chainName` (and without the relayer registry, which the
+// round trip below extends): governance operations on that client may touch nothing else - no receipt, acknowledgement,
+// commitment or sequence of any chain pair.
+func (w *World) packetState(ci int, chainName string) kit.Dump {
+	c := w.Chains[ci]
+	d := c.DumpStores(c.Ctx(), "xibc")
+	var keep []kit.KV
+	for _, kv := range d["xibc"] {
+		k := string(kv.K)
+		if strings.HasPrefix(k, "clients/"+chainName+"/") || strings.HasPrefix(k, "relayers/") {
+			continue
+		}
+		keep = append(keep, kv)
+	}
+	return kit.Dump{"xibc": keep}
+}
+
+// ActUpgradeLower: governance re-anchors the Tendermint client that chain d keeps for chain s at a LOWER height it still holds a
+// consensus state for (an UpgradeClient proposal with the stored consensus state; the consensus states stay). A client
+// operation may not touch packet state: everything outside the client's own store must be byte-identical afterwards, so
+// that nothing already received or acknowledged can be processed again once the client has caught up.
+func (m *Machine) ActUpgradeLower(t *rapid.T) {
+	w := m.W
+	d := rapid.IntRange(0, len(w.Chains)-1).Draw(t, "on")
+	s := rapid.IntRange(0, len(w.Chains)-2).Draw(t, "of")
+	if s >= d {
+		s++
+	}
+	cd, cs := w.Chains[d], w.Chains[s]
+	ck := cd.App.XIBCKeeper.ClientKeeper
+	hs := w.ConsensusHeights(d, s)
+	if len(hs) < 2 {
+		t.Skip("no lower consensus height stored")
+	}
+	low := hs[rapid.IntRange(0, len(hs)-2).Draw(t, "lowerTo")]
+	cur, found := ck.GetClientState(cd.Ctx(), cs.ChainID)
+	tmcs, ok := cur.(*xibctmtypes.ClientState)
+	if !found || !ok {
+		t.Skip("not a Tendermint client")
+	}
+	ncs := *tmcs
+	ncs.LatestHeight = H(tmcs.LatestHeight.RevisionNumber, uint64(low))
+	cons, found := ck.GetClientConsensusState(cd.Ctx(), cs.ChainID, ncs.LatestHeight)
+	if !found {
+		kit.Failf("consensus state %d of %s not found", low, cs.ChainID)
+	}
+	before := w.packetState(d, cs.ChainID)
+	kit.Must(ck.UpgradeClient(cd.Ctx(), cs.ChainID, &ncs, cons), "upgrade to a lower height")
+	if df := kit.Diff(before, w.packetState(d, cs.ChainID)); len(df) > 0 {
+		m.Failf("an UpgradeClient of the client of chain %d on chain %d (to the lower height %d) changed packet state:\n%s", s, d, low, kit.DiffString(df, 8))
+	}
+	m.R.Label("client_upgraded_to_lower_height")
+	m.Log("upgradeLower", fmt.Sprintf("client of %d on %d -> %d", s, d, low), "packet state unchanged")
+}
+
 // ActToggleRoundTrip: governance switches the client that chain d keeps for chain s from Tendermint to TSS (ToggleClient wipes
 // the CLIENT's store) and later back. While the TSS client is in place, the TSS account - now the only authorised relayer for
 // s - replays every packet of s that d has already accepted, and every acknowledgement d has already processed for packets it
@@ -436,7 +498,11 @@ func (m *Machine) ActToggleRoundTrip(t *rapid.T) {
 		cd.RegisterRelayer(w.TSS.Acc, append(append([]string{}, ir.Chains...), cs.ChainID), append(append([]string{}, ir.Addresses...), w.TSS.Acc.String()))
 	}
 	tss := &tsstypes.ClientState{TssAddress: w.TSS.Acc.String(), Pubkey: []byte("pubkey"), PartPubkeys: [][]byte{[]byte("p1")}}
+	psBefore := w.packetState(d, cs.ChainID)
 	kit.Must(ck.ToggleClient(cd.Ctx(), cs.ChainID, tss, &tsstypes.ConsensusState{}), "toggle to TSS")
+	if df := kit.Diff(psBefore, w.packetState(d, cs.ChainID)); len(df) > 0 {
+		m.Failf("a ToggleClient of the client of chain %d on chain %d changed packet state:\n%s", s, d, kit.DiffString(df, 8))
+	}
 	replays := 0
 	for _, p := range w.Pkts {
 		if p.SrcIdx == s && p.DstIdx == d && p.Received {
@@ -462,6 +528,12 @@ func (m *Machine) ActToggleRoundTrip(t *rapid.T) {
 	}
 	tm, cons := cd.TMClientAt(cs, 0)
 	kit.Must(ck.ToggleClient(cd.Ctx(), cs.ChainID, tm, cons), "toggle back to Tendermint")
+	// the reinstalled client has accepted exactly one consensus state: the one of the proposal. Anything else in its store
+	// (left over from the client before the toggles) would let proofs pass at heights this client never verified.
+	if hs := w.ConsensusHeights(d, s); len(hs) != 1 || hs[0] != int64(tm.LatestHeight.RevisionHeight) {
+		m.Failf("after Tendermint -> TSS -> Tendermint the client of chain %d on chain %d holds consensus states at heights %v; the reinstalled client only accepted %d",
+			s, d, hs, tm.LatestHeight.RevisionHeight)
+	}
 	m.R.Label(fmt.Sprintf("toggle_round_trip_replays_%d", min(replays, 3)))
 	m.Log("toggleRoundTrip", fmt.Sprintf("client of %d on %d", s, d), fmt.Sprintf("%d replays rejected", replays))
 }
